@@ -110,48 +110,51 @@ time any integer encoding of an int64 value (signed or unsigned, any width) or a
 encoding of type 0 with eight payload bytes, the record any plain object, the entries
 `[EventTime, record]` pairs, the optional last element nil or a map with non-empty string keys in
 any order, `size` an integer or nil, `chunk` / `compressed` strings, any further keys with values
-of any shape (`OptKVsOK`).  Conclusion: the decoder — either path, any receiver — returns exactly
+of any shape (`OptKVsOK`); on the stream path, no token in the ext32 format (`hasExt32 b = false`:
+msgp's stream `Skip` fails on those, see `Msgp/Ext32.lean` and the open finding C11-ext32-skip).  Conclusion: the decoder — either path, any receiver — returns exactly
 the message those objects denote and leaves exactly the rest. -/
 
 theorem C01_alt_Message (p : Path) (recv : Message) (b r tag : Bytes) (i : Int) (rec : Obj) (tail : Objs)
     (h : parse b = some (.arr (.cons (.str tag) (.cons (.int i) (.cons rec tail))), r))
-    (hi : inInt64 i) (hrec : Obj.Plain rec) (ht : TailOK tail) :
+    (hi : inInt64 i) (hrec : Obj.Plain rec) (ht : TailOK tail) (hx : p = .stream → hasExt32 b = false) :
     Message.unmarshal p recv b = .ok { tag := tag, ts := i, record := rec, options := optOfTail tail } r :=
-  Message.unmarshal_complete p recv h hi hrec ht
+  Message.unmarshal_complete p recv h hi hrec ht hx
 
 theorem C01_alt_MessageExt (p : Path) (recv : MessageExt) (b r tag d : Bytes) (rec : Obj) (tail : Objs)
     (h : parse b = some (.arr (.cons (.str tag) (.cons (.ext 0 d) (.cons rec tail))), r))
-    (hd : d.length = 8) (hrec : Obj.Plain rec) (ht : TailOK tail) :
+    (hd : d.length = 8) (hrec : Obj.Plain rec) (ht : TailOK tail) (hx : p = .stream → hasExt32 b = false) :
     ∃ ts, decodeET d = some ts ∧
       MessageExt.unmarshal p recv b = .ok { tag := tag, ts := ts, record := rec, options := optOfTail tail } r :=
-  MessageExt.unmarshal_complete p recv h hd hrec ht
+  MessageExt.unmarshal_complete p recv h hd hrec ht hx
 
 theorem C01_alt_Forward (p : Path) (recv : Forward) (b r tag : Bytes) (es tail : Objs)
-    (h : parse b = some (.arr (.cons (.str tag) (.cons (.arr es) tail)), r)) (hes : EntriesOK es) (ht : TailOK tail) :
+    (h : parse b = some (.arr (.cons (.str tag) (.cons (.arr es) tail)), r)) (hes : EntriesOK es) (ht : TailOK tail)
+    (hx : p = .stream → hasExt32 b = false) :
     Forward.unmarshal p recv b = .ok { tag := tag, entries := entriesOfObjs es, options := optOfTail tail } r :=
-  Forward.unmarshal_complete p recv h hes ht
+  Forward.unmarshal_complete p recv h hes ht hx
 
 theorem C01_alt_Packed (p : Path) (recv : Packed) (b r tag s : Bytes) (tail : Objs)
-    (h : parse b = some (.arr (.cons (.str tag) (.cons (.bin s) tail)), r)) (ht : TailOK tail) :
+    (h : parse b = some (.arr (.cons (.str tag) (.cons (.bin s) tail)), r)) (ht : TailOK tail)
+    (hx : p = .stream → hasExt32 b = false) :
     Packed.unmarshal p recv b = .ok { tag := tag, stream := s, options := optOfTail tail } r :=
-  Packed.unmarshal_complete p recv h ht
+  Packed.unmarshal_complete p recv h ht hx
 
 theorem C01_alt_Options (p : Path) (recv : Options) (b r : Bytes) (kvs : Objs)
-    (h : parse b = some (.map kvs, r)) (hk : OptKVsOK kvs) :
+    (h : parse b = some (.map kvs, r)) (hk : OptKVsOK kvs) (hx : p = .stream → hasExt32 b = false) :
     Options.unmarshal p recv b = .ok (foldOpts kvs recv) r :=
-  Options.unmarshal_complete p recv h hk
+  Options.unmarshal_complete p recv h hk hx
 
 theorem C01_alt_Ack (p : Path) (recv : Ack) (b r : Bytes) (kvs : Objs)
-    (h : parse b = some (.map kvs, r)) (hk : KVsOK ackOK kvs) :
-    Ack.unmarshal p recv b = .ok (foldKVs ackApply kvs recv) r := Ack.unmarshal_complete p recv h hk
+    (h : parse b = some (.map kvs, r)) (hk : KVsOK ackOK kvs) (hx : p = .stream → hasExt32 b = false) :
+    Ack.unmarshal p recv b = .ok (foldKVs ackApply kvs recv) r := Ack.unmarshal_complete p recv h hk hx
 
 theorem C01_alt_Helo (p : Path) (recv : Helo) (b r mt : Bytes) (opt : Obj)
     (h : parse b = some (.arr (.cons (.str mt) (.cons opt .nil)), r))
-    (ho : opt = .nil ∨ ∃ kvs, opt = .map kvs ∧ KVsOK heloOK kvs) :
+    (ho : opt = .nil ∨ ∃ kvs, opt = .map kvs ∧ KVsOK heloOK kvs) (hx : p = .stream → hasExt32 b = false) :
     Helo.unmarshal p recv b = .ok (Helo.mk mt
       (match opt with
         | .map kvs => some (foldKVs heloApply kvs (recv.options.getD {}))
-        | _ => none)) r := Helo.unmarshal_complete p recv h ho
+        | _ => none)) r := Helo.unmarshal_complete p recv h ho hx
 
 theorem C01_alt_Pong (p : Path) (recv : Pong) (b r mt reason host dig : Bytes) (ar : Bool)
     (h : parse b = some (.arr (.cons (.str mt) (.cons (.bool ar) (.cons (.str reason) (.cons (.str host)
@@ -186,6 +189,7 @@ example (p : Path) (recv : Message) :
       simp only [TailOK, OptObjOK, OptKVsOK]
       exact ⟨⟨[0x78], rfl, by decide, by simp [OptValOK, kSize, kChunk, kCompressed]⟩,
              ⟨kSize, rfl, by decide, by simp only [OptValOK, if_true]; exact Or.inr ⟨3, rfl, by decide⟩⟩, trivial⟩)
+    (fun _ => by decide +kernel)
   simpa [optOfTail, optOfObj, foldOpts, applyOpt, kSize, kChunk, kCompressed] using this
 
 end FV
